@@ -1,6 +1,7 @@
 import RbV.Ref.MyersHit
 import RbV.Lemmas.TracebackSound
 import RbV.Lemmas.TracebackRing
+import RbV.Lemmas.TracebackScan
 /-!
 # C10 — Myers traceback yields valid alignments
 
@@ -212,6 +213,16 @@ open RbV.Model.MyersTraceback in
 `*_at(e)` methods answer iff `e < c`.  (`e + 2` is computed in `usize`; `e ≥ usize::MAX − 1` is outside the model.) -/
 theorem lazy_available_iff (n c e : Nat) (hc : c ≤ n) : availableAt (n + 2) c e = true ↔ e < c :=
   availableAt_iff n c e hc
+
+open RbV.Model.MyersTraceback in
+/-- the single pass the compiled driver runs (`scanStore`: the vector kept in an `Array` while the text is consumed, as
+`FullMatches`/`LazyMatches` do) reports for every wanted end `c` exactly `tracebackStore … t c c`, the function of
+`traceback_model_sound` -/
+theorem scan_is_model (w : Nat) (eqv : Nat → Nat → Bool) (p : List Nat) (dmax N : Nat)
+    (old : List (RbV.Model.MyersSimple.St w)) (t : List Nat) (want : Nat → Bool) :
+    scanStore w eqv p dmax N old t want =
+      ((List.range (t.length + 1)).filter want).map (fun c => (c, tracebackStore w eqv p dmax N old t c c)) :=
+  scanStore_eq w eqv p dmax N old t want
 
 -- non-vacuity
 example : checkHit eqSym [1, 2, 3] [9, 1, 3, 9] 1 ⟨1, 3, 1, [.mat, .ins, .mat]⟩ = true := by decide
